@@ -11,7 +11,7 @@ Local Open Scope string_scope.
 
 Theorem write_read_order_refuted :
   exists s vars vs s', NoDup vars /\ assignable vars = true /\ composites_exist s vars = true /\
-    block_vars block_vars_gen {| s_basic := ["x"]; s_composite := ["d[x]"]; s_live_in := ["d"; "x"]; s_live_out := ["x"] |}
+    block_vars block_vars_gen {| s_basic := ["x"]; s_composite := ["d[x]"]; s_live_in := ["d"; "x"]; s_live_out := ["x"]; s_globals := []; s_nonlocals := [] |}
       = Some (map show vars, 2) /\
     set s vars vs = Some s' /\ get s' vars <> Some vs.
 Proof.
